@@ -97,10 +97,28 @@ pub unsafe fn header_of(p: *const u8) -> Option<(usize, usize)> {
     }
 }
 
+/// cap on the live bytes of one thread (workers of isolated sweeps are single-threaded, so this is
+/// their process cap): a runaway computation gets a null pointer (allocation failure: the process
+/// aborts, which an isolated sweep reports as a finding of that case) instead of pushing the
+/// machine into the OOM killer.  Thread-local on purpose: a shared counter made every allocation of
+/// the 16 explorer threads fight for one cache line (10x slowdown measured).
+static CAP: std::sync::atomic::AtomicUsize = std::sync::atomic::AtomicUsize::new(8 << 30);
+
+pub fn set_cap(bytes: usize) {
+    CAP.store(bytes, std::sync::atomic::Ordering::Relaxed);
+}
+
 unsafe impl GlobalAlloc for Tracking {
     unsafe fn alloc(&self, layout: Layout) -> *mut u8 {
         if layout.align() > MAXALIGN {
             return System.alloc(layout);
+        }
+        {
+            let cap = CAP.load(std::sync::atomic::Ordering::Relaxed);
+            let live = LIVE.try_with(|c| c.get()).unwrap_or(0).max(0) as usize;
+            if layout.size() > cap || live + layout.size() > cap {
+                return std::ptr::null_mut();
+            }
         }
         let total = match layout.size().checked_add(2 * ZONE) {
             Some(t) => t,
